@@ -48,6 +48,15 @@ def run(tier):
                 else:
                     c.violation("opaque form of %s/%s over a %s payload is %s but the typed form is not" % (cell["w"], cell["i"], cell["p"], m),
                                 {"cell": cell})
+            # typed level: a typed object / group / Fwd built on a handle never has a marker the handle lacks
+            if cell["w"] != "inst" and cell["base"][m] and not inst_base[(cell["i"], cell["p"])][m]:
+                site = "typed:%s/%s:%s:%s" % (cell["w"], cell["i"], cell["p"], m)
+                if site in known:
+                    if site not in seen_sites:
+                        c.known(known[site]["id"], known[site]["what"])
+                        seen_sites.add(site)
+                else:
+                    c.violation("the typed %s over %s with a %s payload is %s although the instance handle it was built from is not" % (cell["w"], cell["i"], cell["p"], m), {"cell": cell})
             # binding: the observation should match what the spec's rule sets predict
             if p is not None:
                 if cell["w"] == "inst" and cell["base"][m] and not p["base"][m]:
